@@ -185,6 +185,7 @@ func ruleCONST(w *World, r *Report, o constOpts) {
 		constHashOrders(w, r)
 		constSetID(w, r)
 		constSixteenK(w, r, "par2")
+		constFreshVolumeMap(w, r)
 	}
 	if o.par1 {
 		constLayouts(w, r, "par1")
@@ -1122,4 +1123,46 @@ func deepPathSliceBase(v ssa.Value) string {
 func addrPathDeep(v ssa.Value) string {
 	p := addrPath(v)
 	return p.Path
+}
+
+// constFreshVolumeMap: each recovery volume starts from an empty recovery-packet map.
+func constFreshVolumeMap(w *World, r *Report) {
+	fn := w.Fn("(*par2.Encoder).Write")
+	if fn == nil {
+		r.unk("CONST", "par2:fresh-volume-map", "-", "(*par2.Encoder).Write not found")
+		return
+	}
+	// the store into field recoveryPackets; its value must be a MakeMap created inside the volume loop
+	n := 0
+	for _, b := range fn.Blocks {
+		for _, in := range b.Instrs {
+			st, ok := in.(*ssa.Store)
+			if !ok {
+				continue
+			}
+			fa, ok := st.Addr.(*ssa.FieldAddr)
+			if !ok || fieldName(fa.X.Type(), fa.Field) != "recoveryPackets" {
+				continue
+			}
+			n++
+			mk, isMk := st.Val.(*ssa.MakeMap)
+			// loop: a header that dominates the store and is reachable from it
+			inLoop := false
+			if isMk {
+				for _, s := range reachableList(mk.Block()) {
+					if s == mk.Block() {
+						inLoop = true
+					}
+				}
+			}
+			if isMk && inLoop {
+				r.ok("CONST", "par2:fresh-volume-map", w.ipos(st), "every volume file starts from a fresh recovery-packet map created inside the volume loop")
+			} else {
+				r.bad("CONST", "par2:fresh-volume-map", w.ipos(st), "the recovery-packet map of a volume file is not created afresh inside the volume loop: later volumes repeat the blocks of earlier ones, so the set no longer holds each block exactly once")
+			}
+		}
+	}
+	if n == 0 {
+		r.bad("CONST", "par2:fresh-volume-map", w.pos(fn.Pos()), "no assignment of a recovery-packet map per volume found")
+	}
 }
